@@ -1,4 +1,5 @@
 import Prism.Proofs.C02
+import Prism.Proofs.C02Acc
 import Prism.Proofs.C02Mono
 
 #print axioms Prism.C02_enc16_mono
@@ -9,6 +10,9 @@ import Prism.Proofs.C02Mono
 #print axioms Prism.C02_encoder_factors
 #print axioms Prism.C02_encoder_mono_of_index
 #print axioms Prism.C02_probe16
+#print axioms Prism.C02_accuracy16
+#print axioms Prism.C02_accuracy8
+#print axioms Prism.C02_quant_accuracy
 #print axioms Prism.C02_quant_range
 #print axioms Prism.C02_quant_mono
 #print axioms Prism.C02_encoder_mono
